@@ -5,8 +5,9 @@
       variables alpha_i = y_i beta_i the assembled problem is the textbook C-SVM dual
         max  sum beta - 1/2 sum_ab beta_a beta_b y_a y_b K_ab   s.t. 0 <= beta_i <= C_i  [, sum y_i beta_i = 0]
       with C_i = C-/C+ (times the example weight).  Warm start: the clipped (and, with offset,
-      rebalanced) point lies in the box and, with offset, sums to 0 exactly: the warm-started
-      problem has the same feasible set as the cold one.
+      rebalanced when something was truncated, commit 73617c7d) point lies in the box; with offset
+      it sums to 0 exactly when a truncation happened or the old point had sum 0 (an untruncated old
+      point is handed over unchanged); then the warm problem has the feasible set of the cold one.
    B. EpsilonSvmTrainer: the 2n-variable problem over BlockMatrix2x2 is the eps-insensitive dual in
       alpha+ , alpha-; the returned coefficient is alpha+ - alpha-; (K2 v) = K coef.
    C. OneClassSvmTrainer: objective -1/2 alpha K alpha, box [0, 1/(nu n)], the initial point is
@@ -214,29 +215,66 @@ Proof.
   destruct (lab i); split; lra.
 Qed.
 
+(* bool truncated *)
+Lemma truncated_false (p c : nat -> Q) m :
+  truncated qops p c m = false -> forall k, (k < m)%nat -> c k == p k.
+Proof.
+  induction m; intros H k Hk; [lia|]. cbn [truncated o_eqb qops] in H.
+  apply orb_false_iff in H. destruct H as [H1 H2]. apply negb_false_iff in H2.
+  destruct (Nat.eq_dec k m) as [->|N]; [apply Qeq_bool_iff; exact H2|apply IHm; [exact H1|lia]].
+Qed.
+Lemma truncated_none (p c : nat -> Q) m :
+  (forall k, (k < m)%nat -> c k == p k) -> truncated qops p c m = false.
+Proof.
+  induction m; intros H; [reflexivity|]. cbn [truncated o_eqb qops].
+  rewrite IHm by (intros; apply H; lia).
+  assert (E : Qeq_bool (c m) (p m) = true) by (apply Qeq_bool_iff; apply H; lia). rewrite E. reflexivity.
+Qed.
+
 (* the initial point handed to the solver lies in the box (cold, warm, with and without offset) *)
 Lemma init_alpha_in_box bias n prev (lo hi : nat -> Q) i :
   lo i <= 0 -> 0 <= hi i -> lo i <= init_alpha qops 1 bias n prev lo hi i /\ init_alpha qops 1 bias n prev lo hi i <= hi i.
 Proof.
   intros H0 H1. unfold init_alpha. destruct prev as [p|]; [|cbn [o_zero qops]; split; assumption].
   assert (C := clip_box_in_box (p i) (lo i) (hi i) ltac:(lra)).
-  destruct bias; [|exact C].
+  destruct (bias && truncated qops p (fun k => clip_box qops (p k) (lo k) (hi k)) n); [|exact C].
   apply rebalance_in_box; try assumption; apply C.
 Qed.
 
-(* with offset the initial point sums to 0 exactly (cold: it is 0; warm: rebalanced) *)
-Lemma init_alpha_sum_zero n prev (lo hi : nat -> Q) : sumn n (init_alpha qops 1 true n prev lo hi) == 0.
+(* when does the start point of the offset branch sum to 0 exactly: cold start; a truncation
+   happened (then the point is rebalanced); or nothing was truncated and the old point had sum 0 *)
+Definition warm_balanced (n : nat) (prev : option (nat -> Q)) (lo hi : nat -> Q) : Prop :=
+  match prev with
+  | None => True
+  | Some p => truncated qops p (fun k => clip_box qops (p k) (lo k) (hi k)) n = true \/ sumn n p == 0
+  end.
+
+Lemma init_alpha_sum_zero n prev (lo hi : nat -> Q) :
+  warm_balanced n prev lo hi -> sumn n (init_alpha qops 1 true n prev lo hi) == 0.
 Proof.
-  unfold init_alpha. destruct prev as [p|].
-  - apply rebalance_sum_zero.
-  - apply sumn_0. intros. reflexivity.
+  unfold init_alpha, warm_balanced. destruct prev as [p|].
+  - cbn [andb]. destruct (truncated qops p (fun k => clip_box qops (p k) (lo k) (hi k)) n) eqn:T.
+    + intros _. apply rebalance_sum_zero.
+    + intros [X|X]; [discriminate|]. rewrite <- X. apply sumn_ext. apply (truncated_false _ _ _ T).
+  - intros _. apply sumn_0. intros. reflexivity.
+Qed.
+
+(* an untruncated old point is handed over as it is (and so keeps its own sum) *)
+Lemma init_alpha_untruncated bias n p (lo hi : nat -> Q) :
+  (forall k, (k < n)%nat -> lo k <= p k /\ p k <= hi k) ->
+  forall i, (i < n)%nat -> init_alpha qops 1 bias n (Some p) lo hi i == p i.
+Proof.
+  intros Hb i Hi. unfold init_alpha.
+  assert (Ec : forall k, (k < n)%nat -> clip_box qops (p k) (lo k) (hi k) == p k).
+  { intros k Hk. apply clip_box_id; apply (Hb k Hk). }
+  rewrite (truncated_none p _ n Ec), andb_false_r. apply Ec. exact Hi.
 Qed.
 
 Theorem warm_start_feasible bias n lab Cn Cp w prev :
   0 <= Cn -> 0 <= Cp -> (forall i, (i < n)%nat -> 0 <= w i) ->
   let p := csvmw_problem qops 1 bias n lab Cn Cp w prev in
   (forall i, (i < n)%nat -> q_lo p i <= q_init p i /\ q_init p i <= q_hi p i) /\
-  (bias = true -> sumn n (q_init p) == 0).
+  (bias = true -> warm_balanced n prev (q_lo p) (q_hi p) -> sumn n (q_init p) == 0).
 Proof.
   intros Hn Hp Hw p. unfold p, csvmw_problem. cbn [q_lo q_hi q_init]. split.
   - intros i Hi. destruct (csvmw_box_contains_0 lab Cn Cp w i Hn Hp (Hw i Hi)).
@@ -248,7 +286,7 @@ Theorem warm_start_feasible_unweighted bias n lab Cn Cp prev :
   0 <= Cn -> 0 <= Cp ->
   let p := csvm_problem qops 1 bias n lab Cn Cp prev in
   (forall i, (i < n)%nat -> q_lo p i <= q_init p i /\ q_init p i <= q_hi p i) /\
-  (bias = true -> sumn n (q_init p) == 0).
+  (bias = true -> warm_balanced n prev (q_lo p) (q_hi p) -> sumn n (q_init p) == 0).
 Proof.
   intros Hn Hp p. unfold p, csvm_problem. cbn [q_lo q_hi q_init]. split.
   - intros i Hi. destruct (csvm_box_contains_0 lab Cn Cp i Hn Hp).
@@ -256,46 +294,48 @@ Proof.
   - intros ->. apply init_alpha_sum_zero.
 Qed.
 
-(* a previous solution that is feasible for the new problem is kept *)
+(* a previous solution that lies in the new box is kept unchanged (with and without offset) *)
 Theorem warm_start_keeps_feasible bias n lab Cn Cp w prev :
   let p := csvmw_problem qops 1 bias n lab Cn Cp w (Some prev) in
   (forall i, (i < n)%nat -> q_lo p i <= prev i /\ prev i <= q_hi p i) ->
-  (bias = true -> sumn n prev == 0) ->
   forall i, (i < n)%nat -> q_init p i == prev i.
 Proof.
-  intros p. unfold p, csvmw_problem. cbn [q_lo q_hi q_init init_alpha]. intros Hb Hs i Hi.
-  assert (Ec : forall k, (k < n)%nat ->
-             clip_box qops (prev k) (csvmw_lo qops lab Cn w k) (csvmw_hi qops lab Cp w k) == prev k).
-  { intros k Hk. apply clip_box_id; apply (Hb k Hk). }
-  destruct bias; [|apply Ec; assumption].
-  rewrite rebalance_id; [apply Ec; assumption|].
-  rewrite (sumn_ext n _ prev Ec). apply Hs. reflexivity.
+  intros p. unfold p, csvmw_problem. cbn [q_lo q_hi q_init]. apply init_alpha_untruncated.
 Qed.
 
-(* the problem (cold or warm start) is the textbook dual: feasible sets correspond under alpha = y beta *)
+(* the problem is the textbook dual: feasible sets correspond under alpha = y beta whenever the
+   start point sums to 0 (cold start; warm start: warm_start_feasible) *)
 Theorem csvm_problem_is_dual bias n lab Cn Cp prev beta :
-  qp_feasible (csvm_problem qops 1 bias n lab Cn Cp prev) (to_alpha lab beta) <->
-  csvm_dual_feasible n lab (csvm_C lab Cn Cp (fun _ => 1)) bias beta.
+  let p := csvm_problem qops 1 bias n lab Cn Cp prev in
+  (bias = true -> sumn n (q_init p) == 0) ->
+  (qp_feasible p (to_alpha lab beta) <->
+   csvm_dual_feasible n lab (csvm_C lab Cn Cp (fun _ => 1)) bias beta).
 Proof.
-  unfold qp_feasible, csvm_dual_feasible, csvm_problem.
-  cbn [q_dim q_lo q_hi q_eq q_init]. split; intros [Hb He]; split.
+  intros p Hs. unfold p in *. unfold qp_feasible, csvm_dual_feasible, csvm_problem in *.
+  cbn [q_dim q_lo q_hi q_eq q_init] in *. split; intros [Hb He]; split.
   - intros i Hi. apply csvm_box_iff. apply Hb; assumption.
-  - intros B. specialize (He B). subst bias. rewrite init_alpha_sum_zero in He. exact He.
+  - intros B. rewrite <- (Hs B). apply He. exact B.
   - intros i Hi. apply csvm_box_iff. apply Hb; assumption.
-  - intros B. subst bias. rewrite init_alpha_sum_zero. apply He; reflexivity.
+  - intros B. rewrite (Hs B). apply He; assumption.
 Qed.
 
 Theorem csvmw_problem_is_dual bias n lab Cn Cp w prev beta :
-  qp_feasible (csvmw_problem qops 1 bias n lab Cn Cp w prev) (to_alpha lab beta) <->
-  csvm_dual_feasible n lab (csvm_C lab Cn Cp w) bias beta.
+  let p := csvmw_problem qops 1 bias n lab Cn Cp w prev in
+  (bias = true -> sumn n (q_init p) == 0) ->
+  (qp_feasible p (to_alpha lab beta) <->
+   csvm_dual_feasible n lab (csvm_C lab Cn Cp w) bias beta).
 Proof.
-  unfold qp_feasible, csvm_dual_feasible, csvmw_problem.
-  cbn [q_dim q_lo q_hi q_eq q_init]. split; intros [Hb He]; split.
+  intros p Hs. unfold p in *. unfold qp_feasible, csvm_dual_feasible, csvmw_problem in *.
+  cbn [q_dim q_lo q_hi q_eq q_init] in *. split; intros [Hb He]; split.
   - intros i Hi. apply csvmw_box_iff. apply Hb; assumption.
-  - intros B. specialize (He B). subst bias. rewrite init_alpha_sum_zero in He. exact He.
+  - intros B. rewrite <- (Hs B). apply He. exact B.
   - intros i Hi. apply csvmw_box_iff. apply Hb; assumption.
-  - intros B. subst bias. rewrite init_alpha_sum_zero. apply He; reflexivity.
+  - intros B. rewrite (Hs B). apply He; assumption.
 Qed.
+
+Lemma cold_start_sum_zero (bias : bool) n (lo hi : nat -> Q) :
+  bias = true -> sumn n (init_alpha qops 1 bias n None lo hi) == 0.
+Proof. intros _. apply sumn_0. intros. reflexivity. Qed.
 
 (* every feasible point of the assembled problem is the image of a dual-feasible beta *)
 Lemma qp_feasible_ext (p : qp Q) al al' :
@@ -307,19 +347,23 @@ Proof.
 Qed.
 
 Corollary csvmw_feasible_sets_coincide bias n lab Cn Cp w prev al :
-  qp_feasible (csvmw_problem qops 1 bias n lab Cn Cp w prev) al <->
-  csvm_dual_feasible n lab (csvm_C lab Cn Cp w) bias (to_beta lab al).
+  let p := csvmw_problem qops 1 bias n lab Cn Cp w prev in
+  (bias = true -> sumn n (q_init p) == 0) ->
+  (qp_feasible p al <-> csvm_dual_feasible n lab (csvm_C lab Cn Cp w) bias (to_beta lab al)).
 Proof.
-  rewrite <- csvmw_problem_is_dual. split; apply qp_feasible_ext; intros i _.
+  intros p Hs. rewrite <- (csvmw_problem_is_dual bias n lab Cn Cp w prev (to_beta lab al) Hs).
+  split; apply qp_feasible_ext; intros i _.
   - symmetry. apply to_alpha_to_beta.
   - apply to_alpha_to_beta.
 Qed.
 
 Corollary csvm_feasible_sets_coincide bias n lab Cn Cp prev al :
-  qp_feasible (csvm_problem qops 1 bias n lab Cn Cp prev) al <->
-  csvm_dual_feasible n lab (csvm_C lab Cn Cp (fun _ => 1)) bias (to_beta lab al).
+  let p := csvm_problem qops 1 bias n lab Cn Cp prev in
+  (bias = true -> sumn n (q_init p) == 0) ->
+  (qp_feasible p al <-> csvm_dual_feasible n lab (csvm_C lab Cn Cp (fun _ => 1)) bias (to_beta lab al)).
 Proof.
-  rewrite <- csvm_problem_is_dual. split; apply qp_feasible_ext; intros i _.
+  intros p Hs. rewrite <- (csvm_problem_is_dual bias n lab Cn Cp prev (to_beta lab al) Hs).
+  split; apply qp_feasible_ext; intros i _.
   - symmetry. apply to_alpha_to_beta.
   - apply to_alpha_to_beta.
 Qed.
@@ -536,7 +580,7 @@ Proof.
   { split.
     - intros i Hi. destruct i as [|[|[|i]]]; [| | |lia]; vm_compute; split; discriminate.
     - intros _. vm_compute. reflexivity. }
-  split; [exact F|]. apply csvmw_problem_is_dual. exact F.
+  split; [exact F|]. apply csvmw_problem_is_dual; [apply cold_start_sum_zero|exact F].
 Qed.
 
 Print Assumptions csvm_objective_is_dual.
